@@ -64,8 +64,8 @@ func wsConn(s *inproc.Server, hdrs [][2]string) (*memconn.Conn, func(time.Durati
 
 // WsFrame is one WebSocket frame from the hostile client.
 type WsFrame struct {
-	Req    *Req  `json:"req,omitempty"` // payload: an RTSP request ...
-	Raw    *Blob `json:"raw,omitempty"` // ... or these octets
+	Req    *Req  `json:"req,omitempty"`   // payload: an RTSP request ...
+	Raw    *Blob `json:"raw,omitempty"`   // ... or these octets
 	Extra  *Blob `json:"extra,omitempty"` // appended to the payload (second request, garbage)
 	Fin    bool  `json:"fin"`
 	Opcode int   `json:"opcode"`
@@ -331,6 +331,11 @@ func runWs(c WsCase) *pbt.Violation {
 	fd.key = len(c.wire())
 	if v := deliverRtsp(s, conn, c.wire(), c.Slices, fd, c.FeedAfter, nil, wait, "rtsp.(*WebsocketServer).HandleWebsocket", "ws-rtsp"); v != nil {
 		return v
+	}
+	if !c.rtsp().subscriberSide() && fd.key%2 == 0 {
+		if v := republish(s, "c13hostile"); v != nil {
+			return v
+		}
 	}
 	return probe(s, fd)
 }
